@@ -103,7 +103,7 @@ NewScope(h, c) == [heap |-> Append(h, Scope(c, NoVars, h[c].blocks)), cur |-> Le
 RECURSIVE FindScope(_, _, _)
 FindScope(h, i, n) == IF i = 0 THEN 0 ELSE IF h[i].vars[n] # Unset THEN i ELSE FindScope(h, h[i].parent, n)
 
-Builtins == {"len", "lower", "isset"}
+Builtins == {"len", "lower", "upper", "isset"}
 Resolve(h, c, n) ==
   LET i == FindScope(h, c, n) IN
   IF i # 0 THEN h[i].vars[n]
@@ -132,6 +132,14 @@ Eval(e, h, c, cx) ==
     [] e.k = "isset" -> LET v == Resolve(h, c, e.a) IN
                         [ok |-> TRUE, v |-> IF v \in {Unset, Nil} THEN "false" ELSE "true", class |-> ""]
     [] e.k = "none"  -> [ok |-> TRUE, v |-> Nil, class |-> ""]
+    \* n("AbC"): the name resolves like any other - scopes, Execute variables, globals, then the built-ins -
+    \* every time the expression is evaluated
+    [] e.k = "bcall" -> LET v == Resolve(h, c, e.a) IN
+                        IF v = Unset THEN [ok |-> FALSE, v |-> Nil, class |-> "identifier"]
+                        ELSE IF v = "FUNC:lower" THEN [ok |-> TRUE, v |-> "abc", class |-> ""]
+                        ELSE IF v = "FUNC:upper" THEN [ok |-> TRUE, v |-> "ABC", class |-> ""]
+                        ELSE IF v \in {"FUNC:vmf", "FUNC:glf"} THEN [ok |-> TRUE, v |-> v \o "(AbC)", class |-> ""]
+                        ELSE [ok |-> FALSE, v |-> Nil, class |-> "calltarget"]
     [] OTHER         -> [ok |-> FALSE, v |-> Nil, class |-> "operand"]
 
 ---------------------------------------------------------------------------
